@@ -85,3 +85,99 @@ example : wTo (runActs (setup 2 1 [(ta, 1)]) lostAckSchedule) 1 (ta, 1) = [2, 1]
     dFrom (runActs (setup 2 1 [(ta, 1)]) lostAckSchedule) 1 (ta, 1) = [2] := by decide +kernel
 
 end WalrusVerif.Plane
+
+namespace WalrusVerif.Plane
+open WalrusVerif
+
+/-- everything `applyNext` leaves alone stays as it is through set-up -/
+theorem applyNext_ta (w : World) (n : Nat) : (applyNext w n).1.tasks = w.tasks ∧ (applyNext w n).1.acked = w.acked := by
+  unfold applyNext; simp only; split <;> exact ⟨rfl, rfl⟩
+
+theorem applyAllOn_ta (w : World) (n fuel : Nat) : (applyAllOn w n fuel).tasks = w.tasks ∧ (applyAllOn w n fuel).acked = w.acked := by
+  induction fuel generalizing w with
+  | zero => exact ⟨rfl, rfl⟩
+  | succ k ih =>
+    unfold applyAllOn
+    have := applyNext_ta w n
+    split
+    · rename_i w' _ heq; rw [heq] at this; exact ⟨(ih w').1.trans this.1, (ih w').2.trans this.2⟩
+    · rename_i w' heq; rw [heq] at this; exact this
+
+theorem applyAll_ta (w : World) : (applyAll w).tasks = w.tasks ∧ (applyAll w).acked = w.acked := by
+  unfold applyAll
+  have : ∀ (l : List Nat) (w : World),
+      (l.foldl (fun w n => applyAllOn w n (w.log.length + 1)) w).tasks = w.tasks ∧
+      (l.foldl (fun w n => applyAllOn w n (w.log.length + 1)) w).acked = w.acked := by
+    intro l
+    induction l with
+    | nil => intro w; exact ⟨rfl, rfl⟩
+    | cons a r ih =>
+      intro w
+      simp only [List.foldl_cons]
+      exact ⟨(ih _).1.trans (applyAllOn_ta w a _).1, (ih _).2.trans (applyAllOn_ta w a _).2⟩
+  exact this _ w
+
+theorem setup_ta (n thresh : Nat) (topics : List (Name × Nat)) :
+    (setup n thresh topics).tasks = AMap.empty ∧ (setup n thresh topics).acked = [] := by
+  unfold setup
+  have : ∀ (l : List (Name × Nat)) (w : World), (w.tasks = AMap.empty ∧ w.acked = []) →
+      ((l.foldl (fun w t => createTopic w t.1 t.2) w).tasks = AMap.empty ∧ (l.foldl (fun w t => createTopic w t.1 t.2) w).acked = []) := by
+    intro l
+    induction l with
+    | nil => intro w h; exact h
+    | cons a r ih =>
+      intro w h
+      apply ih
+      unfold createTopic
+      exact ⟨(applyAll_ta _).1.trans h.1, (applyAll_ta _).2.trans h.2⟩
+  apply this
+  unfold initWorld
+  exact ⟨(applyAll_ta _).1, (applyAll_ta _).2⟩
+
+/-- the schedule only spawns tasks in their initial states (what the harness and `wdriver` do) -/
+def SpawnsFresh (acts : List Act) : Prop := ∀ a ∈ acts, ∀ tid t, a = .spawn tid t → holds t = none
+
+theorem ackInv_runActs (w : World) (acts : List Act) (hs : SpawnsFresh acts) (h : AckInv w) : AckInv (runActs w acts) := by
+  induction acts generalizing w with
+  | nil => exact h
+  | cons a r ih =>
+    apply ih
+    · intro b hb; exact hs b (List.mem_cons_of_mem _ hb)
+    · exact ackInv_act w a (hs a List.mem_cons_self) h
+
+/-- **C22, second part that holds on every schedule: an acknowledged PUT is stored.**  Every payload whose PUT was
+answered OK was written to the engine queue of some (node, wal key) - and by `C22_exactly_once_per_queue` it sits there,
+once, in write order, and is handed out at most once.  (Whether a reader's cursor ever reaches it is what fails.) -/
+theorem C22_acked_are_stored (n thresh : Nat) (topics : List (Name × Nat)) (acts : List Act) (hs : SpawnsFresh acts) :
+    ∀ x ∈ (runActs (setup n thresh topics) acts).acked,
+      ∃ ev ∈ (runActs (setup n thresh topics) acts).writes, ev.payload = x ∧
+        x ∈ (qOf (runActs (setup n thresh topics) acts) ev.node ev.key).entries := by
+  intro x hx
+  have hA : AckInv (setup n thresh topics) := by
+    constructor
+    · intro tid t hget; rw [(setup_ta n thresh topics).1] at hget; simp [AMap.empty, AMap.get?] at hget
+    · intro y hy; rw [(setup_ta n thresh topics).2] at hy; simp at hy
+  obtain ⟨ev, hev, hp⟩ := (ackInv_runActs _ acts hs hA).2 x hx
+  refine ⟨ev, hev, hp, ?_⟩
+  rw [(C22_exactly_once_per_queue n thresh topics acts ev.node ev.key).1]
+  unfold wTo
+  rw [List.mem_map]
+  exact ⟨ev, List.mem_filter.mpr ⟨hev, by simp⟩, hp⟩
+
+/-- the schedules of this file spawn fresh tasks -/
+example : SpawnsFresh lostAckSchedule := by
+  intro a ha tid t he
+  subst he
+  simp only [lostAckSchedule, staleLeaseSchedule, List.mem_append, List.mem_cons, List.mem_nil_iff, or_false] at ha
+  rcases ha with (h | h | h | h | h | h | h | h | h | h | h | h | h | h | h) | h <;>
+    first
+    | (cases h; done)
+    | (simp only [Act.spawn.injEq] at h; obtain ⟨_, rfl⟩ := h; rfl)
+    | skip
+  all_goals
+    rcases h with h | h | h | h | h | h | h | h | h | h | h | h | h | h <;>
+      first
+      | (cases h; done)
+      | (simp only [Act.spawn.injEq] at h; obtain ⟨_, rfl⟩ := h; rfl)
+
+end WalrusVerif.Plane
